@@ -163,7 +163,7 @@ def saved_corpus(name):
     return out
 
 
-DEGENERATE = ["/x*/='y'", "/(a)|b/='[$1]'", "/(/='x'", "/[/='x'", "/a{2,1}/='x'", "/(.*)/='$$1'", "/.*/='$9'", "/./='$1'",
+DEGENERATE = ["/x*/='y'", "/(a)|b/='[$1]'", "/(/='x'", "/[/='x'", "/a{2,1}/='x'", "/(.*)/='$$1'", "/(a+)/='<b>$$1</b>'", "/.*/='$9'", "/./='$1'",
               "/(?P<n>a)/='x'", "/a++/='x'", "/\\/='x'", "* = '|'", "= = '<u>|</u>'", "`` = '<c>||</c>'", "\\ = '<b>|</b>'",
               "~ = '<s>|</s>'", "|paragraph|='-spans -specials'", "|paragraph|='<div>|</div> +container'", "|code|='+macros +spans'",
               "|comment|='-skip'", "|html|='+container'", "|indented|='+skip'", "|division|='-container'",
